@@ -1,6 +1,7 @@
 //! msverif: runtime monitors for rust-miniscript (see /verif/DESIGN.md).
 pub mod frag;
 pub mod monitors;
+pub mod pol;
 pub mod oracle;
 pub mod prng;
 pub mod refvm;
